@@ -161,6 +161,7 @@ def refusal_before_mutation(ctx, rule='C14-T3'):
         ex, s = run_inlined(ctx, m, binding)
         ctx.saw(m)
         writes = [e for e in s.events if _is_state_write(e) and e.guard != T.FALSE]
+        ctx.sample({label: {'events': len(s.events), 'state writes': len(writes), 'first write': writes[0].where() if writes else None}})
         for e in s.events:
             if e.kind != 'raise' or e.guard == T.FALSE:
                 continue
